@@ -143,6 +143,11 @@ func (cs corruptSpec) apply(valid []byte) []byte {
 			b[i] ^= 1 << uint(cs.Bit&7)
 		}
 		return b
+	case "tail":
+		// a complete valid stream followed by 1..8 more bytes
+		t := make([]byte, 1+cs.Bit)
+		r.Read(t)
+		return append(append([]byte(nil), valid...), t...)
 	case "garbage":
 		b := make([]byte, cs.Len)
 		r.Read(b)
